@@ -425,6 +425,11 @@ def filter_thru(flux, waveimg=None, wset=None, mask=None,
         If neither `waveimg` nor `wset` are set.
     """
     nTrace, nx = flux.shape
+    if not np.issubdtype(flux.dtype, np.floating):
+        #
+        # Integer spectra (counts): the band fluxes are not integers.
+        #
+        flux = flux.astype(np.float64)
     if filter_prefix != 'sdss_jun2001':
         raise ValueError("Filters other than {0} are not available!".format('sdss_jun2001'))
     ffiles = [_get_pkg_filename_compat('data/filters/{0}_{1}_atm.dat'.format(filter_prefix, f),
